@@ -576,14 +576,31 @@ class Writer:
         self.code_units = {}
         first = None
         cnt = 0
+        # opt-in "share_identical_code_items": "file" (or True) | "class" - methods whose encoded code_item is byte-identical point to ONE code_item
+        # (legal: code-item deduplication of dexlayout / D8 produces it), over the whole file or only among the methods of one class.
+        # Default (absent): one code_item per method, as ever.
+        share = o.get("share_identical_code_items")
+        shared = {}
+        self.shared_code = {}      # code_off -> [(cls, name, ret, params), ...] for every code_item used by more than one method
         for c in classes:
             for mt in c.direct_methods + c.virtual_methods:
                 if mt.code:
+                    if share:
+                        enc, units = self.enc_code(mt.code, dbg_off.get(id(mt), 0))
+                        skey = (id(c) if share == "class" else None, enc)
+                        if skey in shared:
+                            code_off[id(mt)] = shared[skey][0]
+                            self.code_units[(mt.cls, mt.name, mt.ret, mt.params)] = (shared[skey][0], units)
+                            shared[skey][1].append((mt.cls, mt.name, mt.ret, mt.params))
+                            self.shared_code[shared[skey][0]] = shared[skey][1]
+                            continue
                     align(4)
                     if first is None:
                         first = len(buf)
                     code_off[id(mt)] = len(buf)
                     enc, units = self.enc_code(mt.code, dbg_off.get(id(mt), 0))
+                    if share:
+                        shared[skey] = (len(buf), [(mt.cls, mt.name, mt.ret, mt.params)])
                     self.code_units[(mt.cls, mt.name, mt.ret, mt.params)] = (len(buf), units)
                     buf += enc
                     cnt += 1
